@@ -233,6 +233,9 @@ func (el *eventloop) open(c *conn) error {
 	c.opened = true
 
 	out, action := el.eventHandler.OnOpen(c)
+	if !c.opened {
+		return nil // closed synchronously inside OnOpen (EventLoop.Close)
+	}
 	if out != nil {
 		if err := c.open(out); err != nil {
 			return err
@@ -281,6 +284,11 @@ loop:
 		return el.close(c, nil)
 	case Shutdown:
 		return errorx.ErrEngineShutdown
+	}
+	if !c.opened {
+		// The handler closed the connection synchronously (EventLoop.Close),
+		// its descriptor is gone and must not be read again.
+		return nil
 	}
 	_, _ = c.inboundBuffer.Write(c.buffer)
 	c.buffer = c.buffer[:0]
